@@ -83,7 +83,9 @@ class Builder:
             return pre + [f"let {c} = 0;", f"while {c} < 2 {{", f"    {c} += 1;"] + ind(body) + [
                 f"    if {c} == 1 {{ continue; }};", f'    println("tail while{depth}", {c});', "}", f'println("after while{depth}", {c}, k);']
         if w == "for":
-            return pre + [f"for {c} in 0..2 {{"] + ind(body) + [
+            # the iterable is a GLOBAL range (and the loop may be left early, in a function that is called again): every
+            # loop iterates its own snapshot from the start, whatever an earlier loop over the same value did
+            return pre + [f"for {c} in RG2 {{"] + ind(body) + [
                 f"    if {c} == 0 {{ continue; }};", f'    println("tail for{depth}", {c});', "}", f'println("after for{depth}", k);']
         if w == "block":
             return pre + ["{"] + ind(body) + ["};", f'println("after block{depth}", k);']
@@ -117,10 +119,11 @@ class Builder:
 def program(ws, x):
     b = Builder()
     main = b.wrap(list(ws), x)
-    lines = ['fn boom_i() -> int { throw("boom i"); }', 'fn boom_n() { throw("boom n"); }']
+    lines = ['let RG2 = 0..2;', 'fn boom_i() -> int { throw("boom i"); }', 'fn boom_n() { throw("boom n"); }']
     for f in b.fns:
         lines += f
-    lines += ["fn main() {", "    let zero = 0;", "    let k = 1;"] + ["    " + l for l in main] + ['    println("end of main", k);', "}"]
+    lines += ["fn main() {", "    let zero = 0;", "    let k = 1;"] + ["    " + l for l in main] + [
+        '    for z in RG2 { print("z", z, ""); }', '    println("end of main", k);', "}"]
     return "\n".join(lines) + "\n"
 
 
